@@ -108,7 +108,7 @@ func TestC07(t *testing.T) {
 		}
 		steps = append(steps, s)
 	}
-	rapidSetup(env.Pick(500, 5000), 7)
+	rapidSetup(env.Pick(500, 2500), 7)
 	rapid.Check(t, func(rt *rapid.T) {
 		prog := gogen.Generate(rt, gogen.WildProfile(off))
 		files := map[string]string{"main.go": prog.Main, "prelude.go": gogen.AnalysedPrelude}
